@@ -95,6 +95,16 @@ pub fn event<T: DateRoll>(key: &str, kind: &str, cal: &T, lo: i64, hi: i64, q: V
            "stl": bitmap(lo, hi, |d| cal.is_settlement(d)),
            "q": q})
 }
+/// the same, with the projections of the individually built member / settlement calendars of a union
+pub fn event_u<T: DateRoll>(key: &str, kind: &str, cal: &T, parts: (&Vec<Cal>, &Option<Vec<Cal>>), lo: i64, hi: i64, q: Vec<Value>) -> Value {
+    let mut e = event(key, kind, cal, lo, hi, q);
+    let mb: Vec<Value> = parts.0.iter().map(|c| bitmap(lo, hi, |d| c.is_bus_day(d))).collect();
+    let sb: Vec<Value> = parts.1.as_ref().map(|v| v.iter().map(|c| bitmap(lo, hi, |d| c.is_bus_day(d))).collect()).unwrap_or_default();
+    e["mb"] = json!(mb);
+    e["sb"] = json!(sb);
+    e["hs"] = json!(parts.1.is_some());
+    e
+}
 
 fn days(v: &Value) -> Vec<NaiveDateTime> {
     v.as_array().unwrap().iter().map(|x| dn(x.as_i64().unwrap())).collect()
@@ -132,7 +142,9 @@ fn battery<T: DateRoll>(cal: &T, q0: i64, q1: i64, nmax: i64, with_s: bool) -> V
 /// replay TLC-generated calendar families (Gen_Calendar) into real objects
 pub fn replay(cases: &str, out: &str) {
     let mut o = Out::create(out);
+    let wd = Watchdog::start(out, 60);
     for (i, c) in read_ndjson(cases).iter().enumerate() {
+        wd.enter(&format!("gen/{}", i));
         let (lo, hi) = (c["lo"].as_i64().unwrap(), c["hi"].as_i64().unwrap());
         let (q0, q1, nmax) = (c["q0"].as_i64().unwrap(), c["q1"].as_i64().unwrap(), c["nmax"].as_i64().unwrap());
         let bcal = Cal::new(days(&c["bh"]), mask(&c["mask"]));
@@ -142,14 +154,15 @@ pub fn replay(cases: &str, out: &str) {
             let q = battery(&bcal, q0, q1, nmax, true);
             o.emit(&event(&format!("gen/{}/Cal", i), "Cal", &bcal, lo, hi, q));
         }
-        let u = UnionCal::new(vec![bcal.clone()], Some(vec![scal.clone()]));
+        let parts = (vec![bcal.clone()], Some(vec![scal.clone()]));
+        let u = UnionCal::new(parts.0.clone(), parts.1.clone());
         if i % 2 == 0 {
             let q = battery(&u, q0, q1, nmax, true);
-            o.emit(&event(&format!("gen/{}/UnionCal", i), "UnionCal", &u, lo, hi, q));
+            o.emit(&event_u(&format!("gen/{}/UnionCal", i), "UnionCal", &u, (&parts.0, &parts.1), lo, hi, q));
         } else {
             let t = CalType::UnionCal(u);
             let q = battery(&t, q0, q1, nmax, true);
-            o.emit(&event(&format!("gen/{}/CalType", i), "CalType", &t, lo, hi, q));
+            o.emit(&event_u(&format!("gen/{}/CalType", i), "CalType", &t, (&parts.0, &parts.1), lo, hi, q));
         }
     }
     eprintln!("cal replay: {} events", o.finish());
@@ -259,6 +272,7 @@ fn window(r: &mut Rng, working_days_per_week: i64) -> (i64, i64, i64) {
 pub fn record(seed: u64, n: usize, out: &str) {
     let mut r = Rng::new(seed ^ 0xCA1);
     let mut o = Out::create(out);
+    let wd = Watchdog::start(out, 60);
     for i in 0..n {
         // centre between 1972 and 2198
         let nq = 40;
@@ -268,7 +282,9 @@ pub fn record(seed: u64, n: usize, out: &str) {
                 let mask = rand_mask(&mut r, common);
                 let (centre, lo, hi) = window(&mut r, 7 - mask.len() as i64);
                 let c = Cal::new(rand_hols(&mut r, lo, hi, centre), mask);
+                wd.enter(&format!("rnd/{}/Cal", i));
                 let q = random_queries(&c, &mut r, centre, nq, lo, hi);
+                wd.leave();
                 o.emit(&event(&format!("rnd/{}/Cal", i), "Cal", &c, lo, hi, q));
             }
             1 | 2 => {
@@ -286,28 +302,35 @@ pub fn record(seed: u64, n: usize, out: &str) {
                 } else {
                     Some((0..ns as usize).map(|k| Cal::new(rand_hols(&mut r, lo, hi, centre), masks[nm as usize + k].clone())).collect())
                 };
-                let u = UnionCal::new(members, settle);
+                let u = UnionCal::new(members.clone(), settle.clone());
                 if r.coin() {
+                    wd.enter(&format!("rnd/{}/UnionCal", i));
                     let q = random_queries(&u, &mut r, centre, nq, lo, hi);
-                    o.emit(&event(&format!("rnd/{}/UnionCal", i), "UnionCal", &u, lo, hi, q));
+                    o.emit(&event_u(&format!("rnd/{}/UnionCal", i), "UnionCal", &u, (&members, &settle), lo, hi, q));
                 } else {
                     let t = CalType::UnionCal(u);
+                    wd.enter(&format!("rnd/{}/CalType", i));
                     let q = random_queries(&t, &mut r, centre, nq, lo, hi);
-                    o.emit(&event(&format!("rnd/{}/CalType", i), "CalType", &t, lo, hi, q));
+                    o.emit(&event_u(&format!("rnd/{}/CalType", i), "CalType", &t, (&members, &settle), lo, hi, q));
                 }
+                wd.leave();
             }
             _ => {
                 let name = *r.pick(&NAMED);
                 let (centre, lo, hi) = window(&mut r, 3);
                 let c = NamedCal::try_new(name).expect("built-in name");
+                let u = rateslib::verif::named_cal_union(&c).clone();
+                let parts = rateslib::verif::union_cal_parts(&u);
+                wd.enter(&format!("rnd/{}/NamedCal:{}", i, name));
                 if r.coin() {
                     let q = random_queries(&c, &mut r, centre, nq, lo, hi);
-                    o.emit(&event(&format!("rnd/{}/NamedCal:{}", i, name), "NamedCal", &c, lo, hi, q));
+                    o.emit(&event_u(&format!("rnd/{}/NamedCal:{}", i, name), "NamedCal", &c, parts, lo, hi, q));
                 } else {
                     let t = CalType::NamedCal(c);
                     let q = random_queries(&t, &mut r, centre, nq, lo, hi);
-                    o.emit(&event(&format!("rnd/{}/CalType:{}", i, name), "CalType", &t, lo, hi, q));
+                    o.emit(&event_u(&format!("rnd/{}/CalType:{}", i, name), "CalType", &t, parts, lo, hi, q));
                 }
+                wd.leave();
             }
         }
     }
